@@ -12,15 +12,15 @@ from vf import futb_model as M, futb_check as K, futb_harness as H
 PID = 'C17'
 META = {
     'technique': 'Coq proof (invariants over all histories of an executable ResponseFuture model) + per-step correspondence with the real class on exhaustive plan x pool-state scopes',
-    'level_text': 'C17_order / C17_order_history / C17_no_repeat / C17_other_sends_are_tasks / C17_retry_task_needs_decision / '
+    'level_text': 'C17_order / C17_order_history / C17_no_repeat / C17_other_sends_are_tasks / C17_retry_task_needs_decision / C17_exhaustion_lists_every_host / '
                   'C17_exhaustion / C17_errors_only_plan_hosts / C17_target_only proved for every plan, pool-state assignment, retry-policy '
                   'oracle and history (responses, executor runs, speculative firings, pool changes) of the FutB model; model tied to '
                   'cluster.py by step-by-step differential execution of the real ResponseFuture.',
     'level_note': 'Trusted: Coq kernel, the fake session/pool/connection/timer harness, py2coq for uses_keyspace_flag. Not modelled: '
                   'request timeouts inside send_request (timeout=None in the harness; C15), real threads (each session.submit and each '
-                  'response is one atomic step), metrics, paging. Exhaustion coverage ("every attempted host is listed") is checked on the '
-                  'implementation for sequential histories; the proved part is: NoHostAvailable only from an exhausted plan, carrying '
-                  '_errors, whose keys are plan hosts that were skipped or attempted.',
+                  'response is one atomic step), metrics, paging. Exhaustion: proved that NoHostAvailable arises only from an exhausted '
+                  'plan, carries _errors, lists only plan hosts, and (for a request without outcome) lists every plan host that has no '
+                  'unanswered attempt / queued task left; NoHostAvailable.errors aliases the live _errors dict (compared as a snapshot).',
     'design_ref': 'DESIGN.md section 4, C17; Appendix A.3',
 }
 
